@@ -282,6 +282,181 @@ Section While.
   Qed.
 End While.
 
+(** ** [do body while (c)]: the body runs first, then the condition decides whether to jump back to the start block *)
+Section Do.
+  Variable structs : list sdef.
+  Variable gl args : list string.
+  Notation lowers := (lower_stmt structs gl args).
+
+  Lemma lower_do_unfold b c st :
+    lowers (TDo b c) st =
+    (let '(st1, startb) := create_block st in
+     ldo st2 <- lowers (TBlock b) (set_depth st1 (S (l_depth st1)));
+     let '(st4, condb) := create_block (set_depth st2 (l_depth st1)) in
+     ldo p <- lower_expr structs gl args c st4; let '(cv, st5) := p in
+     let '(st6, br) := emit_branch st5 (Some cv) (LRef startb) LNone in
+     let '(st7, endb) := create_block st6 in
+     LOk (patch (set_targets st7 br None (Some (LRef endb))) (l_depth st1) endb condb)).
+  Proof. cbn [lower_stmt]. destruct (create_block st) as [st1 startb]. reflexivity. Qed.
+
+  (** at most [k] executions of the body; the body is a list of b-statements of depth [n] *)
+  Fixpoint dloop (n k : nat) (cs : list (nat * irty * cval)) (locals : list string) (b : list tstmt) (c : texpr) (V : list (string * val)) (A : list val) (vs : vmstate)
+    : option (list (string * val) * list val * vmstate) :=
+    match k with
+    | O => None
+    | S k' =>
+        match bexec structs gl args (S n) cs locals (TBlock b) V A vs with
+        | Some (V1, A1, vs1) =>
+            match teval structs gl args cs locals (mkfr V1 A1) vs1 c with
+            | Ok w => match truthy (hp vs1) w with
+                      | Ok true => dloop n k' cs locals b c V1 A1 vs1
+                      | Ok false => Some (V1, A1, vs1)
+                      | _ => None
+                      end
+            | _ => None
+            end
+        | None => None
+        end
+    end.
+  Definition dspec (n k : nat) (b : list tstmt) (c : texpr) cs (locals : list string) V A vs : option (list string * list (string * val) * list val * vmstate) :=
+    match dloop n k cs locals b c V A vs with Some (V', A', vs') => Some (locals, V', A', vs') | None => None end.
+
+  Lemma tres_do n k b c st st' :
+    tpure c = true -> forallb (bstmt n) b = true -> fok st -> nobc st -> lowers (TDo b c) st = LOk st' ->
+    tres args st st' (dspec n k b c) /\ nobc st'.
+  Proof.
+    intros Hpc Hbb A N H. rewrite lower_do_unfold in H.
+    destruct (create_block st) as [st1 startb] eqn:Esb.
+    destruct (lowers (TBlock b) (set_depth st1 (S (l_depth st1)))) as [st2| |] eqn:Et; cbn [lbind] in H; try discriminate.
+    destruct (create_block (set_depth st2 (l_depth st1))) as [st4 condb] eqn:Ecb.
+    destruct (lower_expr structs gl args c st4) as [[cv st5]| |] eqn:Ec; cbn [lbind] in H; try discriminate.
+    destruct (emit_branch st5 (Some cv) (LRef startb) LNone) as [st6 br] eqn:Eb.
+    destruct (create_block st6) as [st7 endb] eqn:Eeb. inversion H; subst st'; clear H.
+    set (st8 := set_targets st7 br None (Some (LRef endb))) in *.
+    assert (Hbb' : bstmt (S n) (TBlock b) = true) by exact Hbb.
+    destruct (fok_block _ _ _ Esb A) as (A1 & _ & Hcode1 & Hbo1 & Hsb & Hn1 & _ & Hc1 & Hl1).
+    pose proof (fok_set_depth st1 (S (l_depth st1)) A1) as A1'.
+    destruct (bres_all structs gl args (S n) (TBlock b) _ st2 Hbb' A1' Et) as (A2 & Hl2 & Hn2 & (nc2 & Hc2 & Hg2) & newb & nbb & Hcode2 & Hbo2 & Hr2 & Hb2 & Hsemb).
+    change (lcode (set_depth st1 (S (l_depth st1)))) with (lcode st1) in *. change (boffs (set_depth st1 (S (l_depth st1)))) with (boffs st1) in *.
+    change (l_next (set_depth st1 (S (l_depth st1)))) with (l_next st1) in *. change (l_consts (set_depth st1 (S (l_depth st1)))) with (l_consts st1) in *.
+    change (l_locals (set_depth st1 (S (l_depth st1)))) with (l_locals st1) in *.
+    pose proof (fok_set_depth st2 (l_depth st1) A2) as A3.
+    destruct (fok_block _ _ _ Ecb A3) as (A4 & _ & Hcode4 & Hbo4 & Hcb & Hn4 & _ & Hc4 & Hl4).
+    change (lcode (set_depth st2 (l_depth st1))) with (lcode st2) in *. change (boffs (set_depth st2 (l_depth st1))) with (boffs st2) in *.
+    change (l_next (set_depth st2 (l_depth st1))) with (l_next st2) in *. change (l_consts (set_depth st2 (l_depth st1))) with (l_consts st2) in *.
+    change (l_locals (set_depth st2 (l_depth st1))) with (l_locals st2) in *.
+    destruct (cond_facts structs gl args c st4 cv st5 Hpc A4 Ec) as (A5 & Hl5 & Hn5 & Hcv & (nc5 & Hc5 & Hg5) & isc & nbc & Hcode5 & Hbo5 & Hr5 & Hb5 & Hsemc).
+    destruct (emit_branch_fok _ _ _ _ _ _ Eb A5) as (A6 & (nb6 & Hbo6 & Hb6 & _ & _) & Hcode6 & Hc6 & Hl6 & _ & Hbr).
+    destruct (fok_block _ _ _ Eeb A6) as (A7 & _ & Hcode7 & Hbo7 & Heb & Hn7 & _ & Hc7 & Hl7).
+    destruct (fok_targets st7 br None (Some (LRef endb)) A7) as (A8 & _ & Hbo8). fold st8 in A8, Hbo8.
+    (* no placeholders: the patch is the identity *)
+    assert (N1 : nobc (set_depth st1 (S (l_depth st1)))) by (unfold nobc; change (lcode (set_depth st1 (S (l_depth st1)))) with (lcode st1); rewrite Hcode1; exact N).
+    pose proof (nobc_b structs gl args (S n) (TBlock b) _ st2 Hbb' A1' N1 Et) as N2.
+    assert (N7 : nobc st7).
+    { unfold nobc. rewrite Hcode7, Hcode6, Hcode5, Hcode4. apply nobc_app; [apply nobc_app; [exact N2|apply nobc_LI]|].
+      intros r p t0 f0 [E|[]]. inversion E; subst. split; exact Logic.I. }
+    pose proof (nobc_set_targets st7 br None (Some (LRef endb)) N7 Logic.I Logic.I) as N8. fold st8 in N8.
+    rewrite (patch_id st8 _ _ _ N8). split; [|exact N8].
+    (* the code *)
+    set (BR0 := LBr br (Some cv) (LRef startb) LNone) in *.
+    assert (Hlc7 : lcode st7 = (lcode st ++ newb ++ map LI isc) ++ [BR0] ++ []) by (rewrite Hcode7, Hcode6, Hcode5, Hcode4, Hcode2, Hcode1, <- !app_assoc; reflexivity).
+    assert (Hpre_ne : forall i, In i (lcode st ++ newb ++ map LI isc) -> lref i <> br).
+    { intros i Hi. apply in_app_or in Hi as [Hi|Hi]; [pose proof (irefs_bound _ A i Hi); lia|].
+      apply in_app_or in Hi as [Hi|Hi]; [specialize (Hr2 i Hi); lia|]. apply in_map_iff in Hi as (j & <- & Hj). cbn. specialize (Hr5 j Hj). lia. }
+    set (BR := LBr br (Some cv) (LRef startb) (LRef endb)) in *.
+    assert (Hlc8 : lcode st8 = lcode st ++ newb ++ map LI isc ++ [BR]).
+    { unfold st8. rewrite set_targets_lcode, Hlc7. unfold BR0. rewrite (upd_layout br (Some cv) (LRef startb) LNone None (Some (LRef endb)) _ [] Hpre_ne (fun i (Hi : In i []) => match Hi with end)).
+      rewrite <- !app_assoc. reflexivity. }
+    set (new := newb ++ map LI isc ++ [BR]).
+    set (nb := [(startb, length (lcode st))] ++ nbb ++ [(condb, length (lcode st2))] ++ nbc ++ nb6 ++ [(endb, length (lcode st6))]).
+    assert (Hbo : boffs st8 = boffs st ++ nb) by (unfold nb; rewrite Hbo8, Hbo7, Hbo6, Hbo5, Hbo4, Hbo2, Hbo1, <- !app_assoc; reflexivity).
+    assert (HL1 : length (lcode st1) = length (lcode st)) by (rewrite Hcode1; reflexivity).
+    assert (HL2 : length (lcode st2) = length (lcode st) + length newb) by (rewrite Hcode2, app_length, HL1; reflexivity).
+    assert (HL4 : length (lcode st4) = length (lcode st2)) by (rewrite Hcode4; reflexivity).
+    assert (HL5 : length (lcode st5) = length (lcode st) + length newb + length isc) by (rewrite Hcode5, app_length, map_length, HL4, HL2; reflexivity).
+    assert (HL6 : length (lcode st6) = length (lcode st) + length newb + length isc + 1) by (rewrite Hcode6, app_length, HL5; cbn; lia).
+    assert (HLnew : length new = length newb + length isc + 1) by (unfold new; rewrite !app_length, map_length; cbn; lia).
+    assert (HL8 : length (lcode st8) = length (lcode st) + length new) by (rewrite Hlc8; fold new; apply app_length).
+    assert (Hnx8 : l_next st8 = l_next st7) by reflexivity.
+    split; [exact A8|]. split; [lia|].
+    split; [exists (nc2 ++ nc5); split; [unfold st8; cbn; rewrite Hc7, Hc6, Hc5, Hc4, Hc2, Hc1, app_assoc; reflexivity|
+                                          intros c0 Hc0; apply in_app_or in Hc0 as [Hc0|Hc0]; [specialize (Hg2 c0 Hc0); lia|specialize (Hg5 c0 Hc0); lia]]|].
+    exists new, nb. split; [rewrite Hlc8; reflexivity|]. split; [exact Hbo|].
+    split.
+    { intros i Hi. unfold new in Hi. rewrite !in_app_iff in Hi. cbn [In] in Hi. destruct Hi as [Hi|[Hi|[Hi|[]]]].
+      - specialize (Hr2 i Hi). lia.
+      - apply in_map_iff in Hi as (j & <- & Hj). cbn. specialize (Hr5 j Hj). lia.
+      - subst i. cbn. lia. }
+    split.
+    { intros e He. unfold nb in He. rewrite HL8.
+      apply in_app_or in He as [He|He]; [destruct He as [<-|[]]; cbn [fst snd]; lia|].
+      apply in_app_or in He as [He|He]; [destruct (Hb2 e He); lia|].
+      apply in_app_or in He as [He|He]; [destruct He as [<-|[]]; cbn [fst snd]; lia|].
+      apply in_app_or in He as [He|He]; [destruct (Hb5 e He); lia|].
+      apply in_app_or in He as [He|He]; [destruct (Hb6 e He); lia|].
+      destruct He as [<-|[]]. cbn [fst snd]. lia. }
+    (* the execution: induction on the number of executions of the body *)
+    intros F pre post fr vs cs locals' V' A' vs' Hflat Hlen Hoff [more Hcs] Hregs Hdisj Hex.
+    assert (Hloc : l_locals st8 = l_locals st) by (unfold st8; cbn; congruence).
+    unfold dspec in Hex. destruct (dloop n k cs (l_locals st) b c (vars fr) (fargs fr) vs) as [[[V1 A1q] vs1]|] eqn:Ew; [|discriminate]. inversion Hex; subst locals' V1 A1q vs1; clear Hex.
+    split; [exact Hloc|].
+    assert (Hflat' : flat_code F = (pre ++ map (finish_instr args) newb ++ map (finish_instr args) (map LI isc)) ++ finish_instr args BR :: post).
+    { rewrite Hflat. unfold new. rewrite !map_app. cbn [map]. rewrite <- ?app_assoc. cbn [app]. reflexivity. }
+    assert (HnBR : nth_error (flat_code F) (length pre + length newb + length isc) = Some (finish_instr args BR)).
+    { rewrite Hflat'. replace (length pre + length newb + length isc) with (length (pre ++ map (finish_instr args) newb ++ map (finish_instr args) (map LI isc))) by (rewrite !app_length, !map_length; lia). apply nth_error_mid. }
+    assert (Hoffsb : block_offset_last (fn_blocks F) startb = Some (length pre)).
+    { assert (Hin : In (startb, length (lcode st)) nb) by (unfold nb; left; reflexivity). pose proof (Hoff _ Hin) as X. cbn [fst snd] in X. rewrite X, Hlen. reflexivity. }
+    assert (Hoffeb : block_offset_last (fn_blocks F) endb = Some (length pre + length new)).
+    { assert (Hin : In (endb, length (lcode st6)) nb) by (unfold nb; rewrite !in_app_iff; cbn [In]; right; right; right; right; right; left; reflexivity).
+      pose proof (Hoff _ Hin) as X. cbn [fst snd] in X. rewrite X, HL6, HLnew, Hlen. f_equal. lia. }
+    assert (Hcs2 : exists more2, cs = l_consts st2 ++ more2).
+    { exists (nc5 ++ more). rewrite Hcs. unfold st8. cbn. rewrite Hc7, Hc6, Hc5, Hc4, <- app_assoc. reflexivity. }
+    assert (Hcs5 : exists more5, cs = l_consts st5 ++ more5) by (exists more; rewrite Hcs; unfold st8; cbn; rewrite Hc7, Hc6; reflexivity).
+    clear Hcs.
+    revert fr vs Hregs Ew. induction k as [|k IHk]; intros fr vs Hregs Ew; [discriminate|]. cbn [dloop] in Ew.
+    destruct (bexec structs gl args (S n) cs (l_locals st) (TBlock b) (vars fr) (fargs fr) vs) as [[[Vb Ab] vsb]|] eqn:Exb; [|discriminate].
+    destruct (Hsemb F pre (map (finish_instr args) (map LI isc) ++ finish_instr args BR :: post) fr vs cs Vb Ab vsb) as (frb & Hjb & Hvb & Hab & Hfb).
+    { rewrite Hflat'. rewrite <- !app_assoc. reflexivity. }
+    { change (length pre = length (lcode st1)). rewrite HL1. exact Hlen. }
+    { intros e He. apply Hoff. unfold nb. rewrite !in_app_iff. cbn [In]. right. left. exact He. }
+    { exact Hcs2. }
+    { exact Hregs. }
+    { intros c0 i Hc0 Hi. apply Hdisj; [exact Hc0|]. unfold new. rewrite !in_app_iff. tauto. }
+    { change (l_locals (set_depth st1 (S (l_depth st1)))) with (l_locals st1). rewrite Hl1. exact Exb. }
+    assert (Hregsb : forall c0, In c0 cs -> rlookup (cref c0) (regs frb) = Some (const_val (snd c0))).
+    { intros c0 Hc0. rewrite Hfb; [apply Hregs; exact Hc0|]. intros i Hi E. apply (Hdisj c0 i Hc0); [unfold new; rewrite !in_app_iff; tauto|congruence]. }
+    destruct (teval structs gl args cs (l_locals st) (mkfr Vb Ab) vsb c) as [w| |] eqn:Etw; try discriminate.
+    destruct (Hsemc F (length pre + length newb) frb vsb cs w Hcs5 Hregsb) as (frc & Hrunc & Hgc & Hvc & Hac & Hfc).
+    { intros c0 i Hc0 Hi. apply (Hdisj c0 (LI i) Hc0). unfold new. rewrite !in_app_iff. right. left. apply in_map. exact Hi. }
+    { rewrite Hl4, Hl2, Hl1. rewrite <- Etw. apply teval_frame; [exact Hvb|exact Hab]. }
+    assert (Hj1 : jruns F (length pre + length newb) frb vsb (length pre + length newb + length isc) frc vsb).
+    { replace (length isc) with (length (map (finish_instr args) (map LI isc))) by (rewrite !map_length; reflexivity).
+      replace (length pre + length newb) with (length (pre ++ map (finish_instr args) newb)) by (rewrite app_length, map_length; reflexivity).
+      apply (sruns_jruns F _ (pre ++ map (finish_instr args) newb) (finish_instr args BR :: post)); [rewrite Hflat', <- !app_assoc; reflexivity|].
+      apply runs_sruns. rewrite app_length, map_length. exact Hrunc. }
+    assert (Hregsc : forall c0, In c0 cs -> rlookup (cref c0) (regs frc) = Some (const_val (snd c0))).
+    { intros c0 Hc0. rewrite Hfc; [apply Hregsb; exact Hc0|]. intros i Hi E. apply (Hdisj c0 (LI i) Hc0); [unfold new; rewrite !in_app_iff; right; left; apply in_map; exact Hi|cbn; congruence]. }
+    destruct (truthy (hp vsb) w) as [[|]| |] eqn:Etr; try discriminate.
+    - (* once more: jump back to the start block *)
+      assert (HstepBR : step F (length pre + length newb + length isc) frc vsb (finish_instr args BR) = StNext (length pre) frc vsb).
+      { unfold BR. rewrite finish_br. unfold step. cbn [i_body tgt]. rewrite Hgc. cbn [lift]. rewrite Etr. cbn [lift]. rewrite Hoffsb. reflexivity. }
+      destruct (IHk frc vsb Hregsc) as (fr' & Hj' & Hv' & Ha' & Hf').
+      { rewrite Hvc, Hac, Hvb, Hab. exact Ew. }
+      exists fr'. split; [|split; [exact Hv'|split; [exact Ha'|]]].
+      + eapply jruns_trans; [exact Hjb|]. eapply jruns_trans; [exact Hj1|]. eapply jruns_trans; [apply (jruns_branch F _ frc vsb _ _ HnBR HstepBR)|exact Hj'].
+      + intros q Hq. rewrite Hf' by exact Hq. rewrite Hfc by (intros i Hi; apply (Hq (LI i)); unfold new; rewrite !in_app_iff; right; left; apply in_map; exact Hi).
+        apply Hfb. intros i Hi. apply Hq. unfold new. rewrite !in_app_iff. left. exact Hi.
+    - (* the condition fails: leave the loop *)
+      inversion Ew; subst V' A' vs'; clear Ew.
+      assert (HstepBR : step F (length pre + length newb + length isc) frc vsb (finish_instr args BR) = StNext (length pre + length new) frc vsb).
+      { unfold BR. rewrite finish_br. unfold step. cbn [i_body tgt]. rewrite Hgc. cbn [lift]. rewrite Etr. cbn [lift]. rewrite Hoffeb. reflexivity. }
+      exists frc. split; [|split; [congruence|split; [congruence|]]].
+      + eapply jruns_trans; [exact Hjb|]. eapply jruns_trans; [exact Hj1|]. apply (jruns_branch F _ frc vsb _ _ HnBR HstepBR).
+      + intros q Hq. rewrite Hfc by (intros i Hi; apply (Hq (LI i)); unfold new; rewrite !in_app_iff; right; left; apply in_map; exact Hi).
+        apply Hfb. intros i Hi. apply Hq. unfold new. rewrite !in_app_iff. left. exact Hi.
+  Qed.
+End Do.
+
 (** ** top-level statement lists with loops, and whole functions *)
 Section WTop.
   Variable structs : list sdef.
@@ -289,11 +464,13 @@ Section WTop.
   Notation lowers := (lower_stmt structs gl args).
 
   Definition is_while (n : nat) (s : tstmt) : bool := match s with TWhile c (Some b) => tpure c && bstmt n b | _ => false end.
-  Definition wtop_ok (n : nat) (s : tstmt) : bool := top_ok n s || is_while n s.
+  Definition is_do (n : nat) (s : tstmt) : bool := match s with TDo b c => tpure c && forallb (bstmt n) b | _ => false end.
+  Definition wtop_ok (n : nat) (s : tstmt) : bool := top_ok n s || is_while n s || is_do n s.
   Definition wtopexec (n k : nat) (cs : list (nat * irty * cval)) (locals : list string) (s : tstmt) (V : list (string * val)) (A : list val) (vs : vmstate)
     : option (list string * list (string * val) * list val * vmstate) :=
     match s with
     | TWhile c (Some b) => wspec structs gl args n k c b cs locals V A vs
+    | TDo b c => dspec structs gl args n k b c cs locals V A vs
     | _ => topexec structs gl args n cs locals s V A vs
     end.
   Fixpoint wtopexec_list (n k : nat) (cs : list (nat * irty * cval)) (locals : list string) (l : list tstmt) (V : list (string * val)) (A : list val) (vs : vmstate)
@@ -308,7 +485,7 @@ Section WTop.
   Proof.
     intros Hs A N H. unfold wtop_ok in Hs. destruct (top_ok n s) eqn:Et.
     - assert (Hnw : forall cs locals V A0 vs, wtopexec n k cs locals s V A0 vs = topexec structs gl args n cs locals s V A0 vs).
-      { intros. unfold wtopexec. destruct s as [| | | | | |c [b|]| | |]; try reflexivity. unfold top_ok in Et. cbn in Et. destruct n; discriminate. }
+      { intros. unfold wtopexec. destruct s as [| | | | | |c [b|]|b0 c0| |]; try reflexivity; unfold top_ok in Et; cbn in Et; destruct n; discriminate. }
       split.
       + pose proof (tres_top structs gl args n s st st' Et A H) as T. destruct T as (T1 & T2 & T3 & new & nb & T4 & T5 & T6 & T7 & T8).
         split; [exact T1|]. split; [exact T2|]. split; [exact T3|]. exists new, nb. split; [exact T4|]. split; [exact T5|]. split; [exact T6|]. split; [exact T7|].
@@ -316,8 +493,11 @@ Section WTop.
       + unfold top_ok in Et. destruct (simple s) eqn:Esim.
         * destruct (lower_simple_correct structs gl args s st st' Esim (fo_linv _ A) H) as (_ & _ & _ & is & Hcode & _). unfold nobc. rewrite Hcode. apply nobc_app; [exact N|apply nobc_LI].
         * cbn in Et. apply (nobc_b structs gl args n s st st' Et A N H).
-    - cbn in Hs. destruct s as [| | | | | |c [b|]| | |]; try discriminate. cbn [is_while] in Hs. apply andb_prop in Hs as [Hpc Hbb].
-      apply (tres_while structs gl args n k c b st st' Hpc Hbb A N H).
+    - cbn [orb] in Hs. destruct s as [| | | | | |c [b|]|b0 c0| |]; try discriminate.
+      + cbn [is_while is_do orb] in Hs. rewrite orb_false_r in Hs. apply andb_prop in Hs as [Hpc Hbb].
+        apply (tres_while structs gl args n k c b st st' Hpc Hbb A N H).
+      + cbn [is_while is_do orb] in Hs. apply andb_prop in Hs as [Hpc Hbb].
+        apply (tres_do structs gl args n k b0 c0 st st' Hpc Hbb A N H).
   Qed.
 
   Lemma wtres_list n k : forall l st st', forallb (wtop_ok n) l = true -> fok st -> nobc st -> lower_body structs gl args l st = LOk st' ->
